@@ -101,6 +101,11 @@ def handle (f : File) (j : Json) : File × Json :=
     | some k => doOp f (.delete k)
     | _ => (f, bad "C13: delete")
   | [Json.str "reopen"] => doOp f .reopen
+  | [Json.str "copy_section", src, dest, Json.str n, Json.bool ch] =>
+    if !(n.isEmpty || validName n) then (f, bad "C13: invalid name") else
+    match jNat? src, (if isNull dest then some none else (jNat? dest).map some) with
+    | some s, some d => doOp f (.copySection s d n ch)
+    | _, _ => (f, bad "C13: copy_section")
   -- queries ------------------------------------------------------------------------------
   | [Json.str "find", root, filt, limit] =>
     match filter? filt, (if isNull limit then some none else (jNat? limit).map some) with
